@@ -85,8 +85,10 @@ enum Destroy {
 	GetMutThenDrop,
 	LeakGuardThenDrop,
 	WriteThenIntoInner,
+	/// the collection is dropped by a panic unwinding through its owner (with a live guard dropped first)
+	DropDuringUnwind,
 }
-const DESTROYS: [Destroy; 8] = [Destroy::Drop, Destroy::IntoChild, Destroy::IntoInner, Destroy::IntoIterFull, Destroy::IntoIterPartial, Destroy::GetMutThenDrop, Destroy::LeakGuardThenDrop, Destroy::WriteThenIntoInner];
+const DESTROYS: [Destroy; 9] = [Destroy::Drop, Destroy::IntoChild, Destroy::IntoInner, Destroy::IntoIterFull, Destroy::IntoIterPartial, Destroy::GetMutThenDrop, Destroy::LeakGuardThenDrop, Destroy::WriteThenIntoInner, Destroy::DropDuringUnwind];
 
 type Case = (String, Box<dyn Fn() + Send + Sync>);
 
@@ -137,6 +139,14 @@ macro_rules! vec_kind_cases {
 							let g = c.lock(key());
 							std::mem::forget(g);
 							drop(c);
+						}
+						Destroy::DropDuringUnwind => {
+							let r = catch_unwind(AssertUnwindSafe(move || {
+								let c = c;
+								let _g = c.$lock(key());
+								std::panic::resume_unwind(Box::new(1u8));
+							}));
+							expect(r.is_err(), "the panic propagates");
 						}
 						Destroy::WriteThenIntoInner => {
 							c.scoped_lock(key(), |mut d| {
@@ -205,7 +215,7 @@ fn unsafe_peek<L: Peek>(l: &L) -> usize {
 
 macro_rules! array_cases {
 	($out:ident, $N:expr) => {
-		for d in [Destroy::Drop, Destroy::IntoChild, Destroy::IntoInner, Destroy::IntoIterFull, Destroy::IntoIterPartial, Destroy::GetMutThenDrop, Destroy::LeakGuardThenDrop, Destroy::WriteThenIntoInner] {
+		for d in [Destroy::Drop, Destroy::IntoChild, Destroy::IntoInner, Destroy::IntoIterFull, Destroy::IntoIterPartial, Destroy::GetMutThenDrop, Destroy::LeakGuardThenDrop, Destroy::WriteThenIntoInner, Destroy::DropDuringUnwind] {
 			for kind in ["Owned", "Boxed", "Retrying"] {
 				$out.push((format!("{}<[Mutex;{}]> new -> {:?}", kind, $N, d), Box::new(move || {
 					let first = COUNTS.with(|c| c.borrow().len());
@@ -232,6 +242,14 @@ macro_rules! array_cases {
 									drop(it);
 								}
 								Destroy::GetMutThenDrop => drop($c),
+								Destroy::DropDuringUnwind => {
+									let r = catch_unwind(AssertUnwindSafe(move || {
+										let c = $c;
+										let _g = c.lock(key());
+										std::panic::resume_unwind(Box::new(1u8));
+									}));
+									expect(r.is_err(), "the panic propagates");
+								}
 								Destroy::LeakGuardThenDrop => {
 									let g = $c.lock(key());
 									std::mem::forget(g);
@@ -295,7 +313,7 @@ pub fn cases() -> Vec<Case> {
 	// boxed slices
 	for n in 0..=4usize {
 		for kind in ["Owned", "Boxed", "Retrying"] {
-			for d in [Destroy::Drop, Destroy::IntoChild, Destroy::IntoInner, Destroy::IntoIterFull, Destroy::LeakGuardThenDrop] {
+			for d in [Destroy::Drop, Destroy::IntoChild, Destroy::IntoInner, Destroy::IntoIterFull, Destroy::LeakGuardThenDrop, Destroy::DropDuringUnwind] {
 				out.push((format!("{}<Box<[RwLock]>>[{}] new -> {:?}", kind, n, d), Box::new(move || {
 					let first = COUNTS.with(|c| c.borrow().len());
 					let b: Box<[R]> = rs(n).into_boxed_slice();
@@ -306,6 +324,14 @@ pub fn cases() -> Vec<Case> {
 								Destroy::IntoChild => check_ids(&$c.into_child().iter().map(|l| unsafe_peek(l)).collect::<Vec<_>>(), first, "into_child"),
 								Destroy::IntoInner => check_ids(&$c.into_inner().iter().map(|t| t.id).collect::<Vec<_>>(), first, "into_inner"),
 								Destroy::IntoIterFull => check_ids(&$c.into_child().into_vec().into_iter().map(|l| l.into_inner().id).collect::<Vec<_>>(), first, "into_vec"),
+								Destroy::DropDuringUnwind => {
+									let r = catch_unwind(AssertUnwindSafe(move || {
+										let c = $c;
+										let _g = c.read(key());
+										std::panic::resume_unwind(Box::new(1u8));
+									}));
+									expect(r.is_err(), "the panic propagates");
+								}
 								_ => {
 									std::mem::forget($c.read(key()));
 									drop($c);
@@ -333,7 +359,7 @@ pub fn cases() -> Vec<Case> {
 	}
 	// tuples and nested shapes
 	for kind in ["Owned", "Boxed", "Retrying"] {
-		for d in [Destroy::Drop, Destroy::IntoChild, Destroy::IntoInner, Destroy::WriteThenIntoInner, Destroy::LeakGuardThenDrop] {
+		for d in [Destroy::Drop, Destroy::IntoChild, Destroy::IntoInner, Destroy::WriteThenIntoInner, Destroy::LeakGuardThenDrop, Destroy::DropDuringUnwind] {
 			out.push((format!("{}<(Mutex,RwLock,Poisonable<Mutex>)> new -> {:?}", kind, d), Box::new(move || {
 				let first = COUNTS.with(|c| c.borrow().len());
 				let t = (Mutex::new(Token::new()), RwLock::new(Token::new()), Poisonable::new(Mutex::new(Token::new())));
@@ -357,6 +383,14 @@ pub fn cases() -> Vec<Case> {
 								});
 								let (a, b, p) = $c.into_inner();
 								expect((a.val, b.val, p.unwrap().val) == (31, 32, 33), "tuple into_inner reflects the last write at the declared positions");
+							}
+							Destroy::DropDuringUnwind => {
+								let r = catch_unwind(AssertUnwindSafe(move || {
+									let c = $c;
+									let _g = c.lock(key());
+									std::panic::resume_unwind(Box::new(1u8));
+								}));
+								expect(r.is_err(), "the panic propagates");
 							}
 							_ => {
 								std::mem::forget($c.lock(key()));
@@ -409,6 +443,14 @@ pub fn cases() -> Vec<Case> {
 								});
 								let (a, b, m) = $c.into_inner();
 								expect((a[1].val, b[0].val, m.val) == (41, 42, 43), "nested into_inner reflects the last write at the declared positions");
+							}
+							Destroy::DropDuringUnwind => {
+								let r = catch_unwind(AssertUnwindSafe(move || {
+									let c = $c;
+									let _g = c.lock(key());
+									std::panic::resume_unwind(Box::new(1u8));
+								}));
+								expect(r.is_err(), "the panic propagates");
 							}
 							_ => {
 								std::mem::forget($c.lock(key()));
@@ -502,7 +544,7 @@ pub fn cases() -> Vec<Case> {
 		})));
 	}
 	// single locks and Poisonable
-	for d in ["drop", "into_inner", "get_mut", "leak mutex guard", "leak rwlock guard", "leak poisonable guard", "poisoned into_inner", "poisoned into_child", "poisoned get_mut"] {
+	for d in ["drop", "drop during unwind", "into_inner", "get_mut", "leak mutex guard", "leak rwlock guard", "leak poisonable guard", "poisoned into_inner", "poisoned into_child", "poisoned get_mut"] {
 		out.push((format!("Mutex / RwLock / Poisonable: {}", d), Box::new(move || {
 			let first = COUNTS.with(|c| c.borrow().len());
 			let mut m = Mutex::new(Token::new());
@@ -513,6 +555,15 @@ pub fn cases() -> Vec<Case> {
 			r.scoped_write(key(), |t| t.val = 62);
 			match d {
 				"drop" => {}
+				"drop during unwind" => {
+					let r = catch_unwind(AssertUnwindSafe(move || {
+						let (m, r, p, pc) = (m, r, p, pc);
+						let _ = (&m, &r, &p, &pc);
+						std::panic::resume_unwind(Box::new(1u8));
+					}));
+					expect(r.is_err(), "the panic propagates");
+					return;
+				}
 				"into_inner" => {
 					let (a, b, c) = (m.into_inner(), r.into_inner(), p.into_inner().unwrap());
 					expect((a.val, b.val) == (61, 62) && (a.id, b.id, c.id) == (first, first + 1, first + 2), "into_inner returns the stored values");
@@ -553,6 +604,44 @@ pub fn cases() -> Vec<Case> {
 							expect(pc.child_mut().is_err(), "poisoned child_mut");
 						}
 					}
+				}
+			}
+		})));
+	}
+	// trait constructors of the single locks and wrappers
+	out.push(("Mutex/RwLock/Poisonable: Default and From, then into_inner".into(), Box::new(|| {
+		let first = COUNTS.with(|c| c.borrow().len());
+		let a = M::default();
+		let b = R::default();
+		let c = M::from(Token::new());
+		let d = R::from(Token::new());
+		let e = Poisonable::from(Mutex::new(Token::new()));
+		let f: Poisonable<OwnedLockCollection<(M, R)>> = Poisonable::default();
+		check_ids(&[a.into_inner().id, b.into_inner().id, c.into_inner().id, d.into_inner().id, e.into_inner().unwrap().id], first, "Default/From round trip");
+		let (x, y) = f.into_inner().unwrap();
+		check_ids(&[x.id, y.id], first + 5, "Poisonable::default round trip");
+	})));
+	// collections nested by value
+	for d in [Destroy::Drop, Destroy::IntoChild, Destroy::IntoInner, Destroy::LeakGuardThenDrop] {
+		out.push((format!("Boxed<Boxed<Vec<Mutex>>> / Retrying<Boxed<..>> / Owned<Retrying<..>> new -> {:?}", d), Box::new(move || {
+			let first = COUNTS.with(|c| c.borrow().len());
+			let a = BoxedLockCollection::new(BoxedLockCollection::new(ms(2)));
+			let b = RetryingLockCollection::new(BoxedLockCollection::new(ms(2)));
+			let c = OwnedLockCollection::new(RetryingLockCollection::new(ms(2)));
+			match d {
+				Destroy::Drop => {}
+				Destroy::IntoChild => {
+					check_ids(&a.into_child().into_child().iter().map(|l| unsafe_peek(l)).collect::<Vec<_>>(), first, "nested into_child");
+					check_ids(&b.into_child().into_child().iter().map(|l| unsafe_peek(l)).collect::<Vec<_>>(), first + 2, "nested into_child");
+					check_ids(&c.into_child().into_child().iter().map(|l| unsafe_peek(l)).collect::<Vec<_>>(), first + 4, "nested into_child");
+				}
+				Destroy::IntoInner => {
+					check_ids(&a.into_inner().iter().map(|t| t.id).collect::<Vec<_>>(), first, "nested into_inner");
+					check_ids(&b.into_inner().iter().map(|t| t.id).collect::<Vec<_>>(), first + 2, "nested into_inner");
+					check_ids(&c.into_inner().iter().map(|t| t.id).collect::<Vec<_>>(), first + 4, "nested into_inner");
+				}
+				_ => {
+					std::mem::forget(a.lock(key()));
 				}
 			}
 		})));
